@@ -341,6 +341,8 @@ orc_compiler_powerpc_assemble (OrcCompiler *compiler)
     for(i=0;i<compiler->n_constants;i++) {
       compiler->constants[i].label = 0;
     }
+    /* the labels the first pass gave to the constants are free again */
+    compiler->n_labels = label_leave + 1;
   }
 
   if (compiler->error) return;
